@@ -617,3 +617,315 @@ Proof.
   - change (lookup n_self_DELIMITER en0 = Some delim). unfold en0.
     rewrite lookup_notin_combine by exact Hvs3. reflexivity.
 Qed.
+
+(** ** Dart *)
+Definition dlit_ok (c : Z) : bool := lit_char_ok 39 c && negb (c =? 36).
+Definition tail_ok (T : str) : Prop := match T with [] => True | c :: _ => is_word c = false end.
+
+Lemma dart_lit : forall s T en, forallb dlit_ok s = true ->
+  dart_run (s ++ T) DN en = option_map (app s) (dart_run T DN en).
+Proof.
+  induction s as [|c s IH]; intros T en H; cbn [app].
+  - rewrite option_map_app_nil. reflexivity.
+  - cbn [forallb] in H. apply andb_true_iff in H. destruct H as [H1 H2].
+    unfold dlit_ok in H1. apply andb_true_iff in H1. destruct H1 as [H1 H3]. apply negb_true_iff in H3.
+    cbn [dart_run]. rewrite H3, H1. rewrite IH by exact H2. apply option_map_app_cons.
+Qed.
+
+Lemma dart_DI : forall n acc T en, forallb is_word n = true -> tail_ok T ->
+  dart_run (n ++ T) (DI acc) en =
+  match lookup (rev acc ++ n) en, dart_run T DN en with Some v, Some r => Some (v ++ r) | _, _ => None end.
+Proof.
+  induction n as [|c n IH]; intros acc T en Hn HT; cbn [app].
+  - rewrite app_nil_r. destruct T as [|c r].
+    + cbn [dart_run]. destruct (lookup (rev acc) en); [rewrite app_nil_r|]; reflexivity.
+    + cbn in HT. cbn [dart_run]. rewrite HT. reflexivity.
+  - cbn [forallb] in Hn. apply andb_true_iff in Hn. destruct Hn as [H1 H2].
+    cbn [dart_run]. rewrite H1. rewrite IH by assumption. cbn [rev]. rewrite <- app_assoc. reflexivity.
+Qed.
+
+Lemma ident_start_not_brace : forall c, is_ident_start c = true -> (c =? 123) = false.
+Proof.
+  intros c H. destruct (c =? 123) eqn:E; [|reflexivity]. apply Z.eqb_eq in E. subst c. discriminate.
+Qed.
+
+Lemma dart_var : forall c0 n T en, is_ident_start c0 = true -> forallb is_word n = true -> tail_ok T ->
+  dart_run (36 :: (c0 :: n) ++ T) DN en =
+  match lookup (c0 :: n) en, dart_run T DN en with Some v, Some r => Some (v ++ r) | _, _ => None end.
+Proof.
+  intros c0 n T en H0 Hn HT. cbn [app dart_run]. rewrite Z.eqb_refl.
+  rewrite (ident_start_not_brace _ H0), H0. rewrite dart_DI by assumption. reflexivity.
+Qed.
+
+Lemma dart_brace : forall n acc T en, forallb is_word n = true ->
+  dart_run (n ++ 125 :: T) (DB acc) en =
+  match lookup (rev acc ++ n) en, dart_run T DN en with Some v, Some r => Some (v ++ r) | _, _ => None end.
+Proof.
+  induction n as [|c n IH]; intros acc T en Hn; cbn [app].
+  - rewrite app_nil_r. reflexivity.
+  - cbn [forallb] in Hn. apply andb_true_iff in Hn. destruct Hn as [H1 H2].
+    cbn [dart_run]. assert (E : (c =? 125) = false).
+    { pose proof (word_not 125 c H1) as W. apply negb_true_iff. apply W. auto. }
+    rewrite E, H1. rewrite IH by assumption. cbn [rev]. rewrite <- app_assoc. reflexivity.
+Qed.
+
+Lemma ident_ok_shape : forall n, ident_ok n = true -> forallb is_word n = true ->
+  exists c0 n', n = c0 :: n' /\ is_ident_start c0 = true /\ forallb is_word n' = true.
+Proof.
+  intros n H W. destruct n as [|c0 [|c1 n']]; try discriminate.
+  exists c0, (c1 :: n'). split; [reflexivity|]. cbn [ident_ok] in H. apply andb_true_iff in H.
+  destruct H as [H _]. split.
+  - unfold is_ident_start. rewrite H. reflexivity.
+  - cbn [forallb] in W. apply andb_true_iff in W. tauto.
+Qed.
+
+(** the head of what follows a variable in the emitted literal is not an identifier character *)
+Lemma dart_template : forall g vals T en,
+  forallb dlit_ok (lits_of g) = true ->
+  forallb ident_ok (vars_of g) = true ->
+  Forall (fun n => forallb is_word n = true) (vars_of g) ->
+  dart_follow g T = true ->
+  lookups (vars_of g) en = Some vals ->
+  dart_run (subst_pos g (map dollar (vars_of g)) ++ T) DN en
+  = option_map (app (subst_pos g vals)) (dart_run T DN en).
+Proof.
+  induction g as [|[c|n] g IH]; intros vals T en Hl Hi Hw Hf Hlk; cbn [subst_pos vars_of lits_of map] in *.
+  - cbn [app]. rewrite option_map_app_nil. reflexivity.
+  - cbn [forallb] in Hl. apply andb_true_iff in Hl. destruct Hl as [L1 L2].
+    cbn [dart_follow] in Hf.
+    change ((c :: subst_pos g (map dollar (vars_of g))) ++ T) with ([c] ++ (subst_pos g (map dollar (vars_of g)) ++ T)).
+    rewrite dart_lit by (cbn; rewrite L1; reflexivity).
+    rewrite (IH vals T en) by assumption. apply option_map_app_cons.
+  - cbn [forallb] in Hi. apply andb_true_iff in Hi. destruct Hi as [I1 I2].
+    inversion Hw as [|? ? W1 W2]; subst.
+    cbn [dart_follow] in Hf. apply andb_true_iff in Hf. destruct Hf as [F1 F2].
+    cbn [lookups] in Hlk. destruct (lookup n en) as [v|] eqn:Ln; [|discriminate].
+    destruct (lookups (vars_of g) en) as [vs|] eqn:Lv; [|discriminate].
+    inversion Hlk; subst vals. clear Hlk.
+    destruct (ident_ok_shape n I1 W1) as [c0 [n' [-> [S0 Wn']]]].
+    unfold dollar at 1. rewrite <- app_assoc.
+    change ((36 :: c0 :: n') ++ subst_pos g (map dollar (vars_of g)) ++ T)
+      with (36 :: (c0 :: n') ++ (subst_pos g (map dollar (vars_of g)) ++ T)).
+    rewrite dart_var; [|exact S0|exact Wn'|].
+    + rewrite Ln. rewrite (IH vs T en) by assumption.
+      destruct (dart_run T DN en); cbn; [rewrite app_assoc|]; reflexivity.
+    + destruct g as [|[c|m] g']; cbn [subst_pos vars_of map app tail_ok].
+      * destruct T; [exact I|]. apply negb_true_iff. exact F1.
+      * apply negb_true_iff. exact F1.
+      * reflexivity.
+Qed.
+
+Lemma dart_prefix_value : forall delim pfx vals en,
+  forallb ident_ok (vars_of (segments pfx)) = true ->
+  lit_ok 39 pfx = true -> lit_ok 39 delim = true -> no_char 36 pfx = true -> no_char 36 delim = true ->
+  (null (vars_of (segments pfx)) || (no_char 37 pfx && no_char 37 delim)) = true ->
+  dart_follow (segments pfx) delim = true ->
+  lookups (vars_of (segments pfx)) en = Some vals ->
+  exists praw, dart_prefix_raw delim pfx (segments pfx) = Some praw /\
+               dart_run praw DN en = Some (prefix_value delim pfx vals).
+Proof.
+  intros delim pfx vals en Hi Lp Ld Dp Dd Hpc Hf Hlk.
+  assert (DL : forall s, lit_ok 39 s = true -> no_char 36 s = true -> forallb dlit_ok s = true).
+  { intros s A B. unfold lit_ok, no_char in *. rewrite forallb_forall in *. intros x Hx. unfold dlit_ok.
+    rewrite (A x Hx), (B x Hx). reflexivity. }
+  assert (Rd : dart_run delim DN en = Some delim).
+  { rewrite <- (app_nil_r delim) at 1. rewrite dart_lit by (apply DL; assumption). cbn. rewrite app_nil_r. reflexivity. }
+  unfold dart_prefix_raw, prefix_value. destruct pfx as [|c p]; [exists []; split; reflexivity|].
+  set (pfx := c :: p) in *. set (g := segments pfx) in *.
+  assert (R : dart_run (subst_pos g (map dollar (vars_of g)) ++ delim) DN en = Some (subst_pos g vals ++ delim)).
+  { rewrite (dart_template g vals delim en); try assumption.
+    - rewrite Rd. reflexivity.
+    - apply forallb_lits_segments. apply DL; assumption.
+    - apply segments_vars_word. }
+  destruct (vars_of g) as [|v vs] eqn:V.
+  - exists (template pct_s g ++ delim). split; [reflexivity|].
+    rewrite (template_novars _ _ V). cbn [map] in R. rewrite (subst_novars g [] V) in R. exact R.
+  - cbn [null orb] in Hpc. apply andb_true_iff in Hpc. destruct Hpc as [P37 D37].
+    exists (subst_pos g (map dollar (v :: vs)) ++ delim). split; [|exact R].
+    rewrite <- V. apply (F_prefix go_fmt go_fmt_cons go_fmt_hole go_fmt_nil); try assumption.
+    fold g. rewrite map_length. reflexivity.
+Qed.
+
+Lemma dart_topic_lit : forall t P delim op en,
+  forallb is_word t = true ->
+  lookup n_prefix en = Some P -> lookup n_delimiter en = Some delim -> lookup n_op en = Some op ->
+  dart_run (lit "${prefix}" ++ t ++ lit "$delimiter$op") DN en = Some (P ++ t ++ delim ++ op).
+Proof.
+  intros t P delim op en Wt L1 L2 L3.
+  change (lit "${prefix}" ++ t ++ lit "$delimiter$op")
+    with (36 :: 123 :: (n_prefix ++ 125 :: (t ++ (36 :: n_delimiter ++ (36 :: n_op ++ []))))).
+  change (dart_run (36 :: 123 :: (n_prefix ++ 125 :: (t ++ (36 :: n_delimiter ++ (36 :: n_op ++ []))))) DN en)
+    with (dart_run (n_prefix ++ 125 :: (t ++ (36 :: n_delimiter ++ (36 :: n_op ++ [])))) (DB []) en).
+  rewrite dart_brace by reflexivity. cbn [rev app]. rewrite L1.
+  rewrite dart_lit.
+  2:{ eapply forallb_impl; [|exact Wt]. intros c Hc. unfold dlit_ok.
+      rewrite (word_lit_char_ok 39 c) by auto. rewrite (word_not 36 c) by auto. reflexivity. }
+  unfold n_delimiter at 1. rewrite dart_var; [|reflexivity|reflexivity|reflexivity].
+  fold n_delimiter. rewrite L2.
+  unfold n_op at 1. rewrite dart_var; [|reflexivity|reflexivity|exact I].
+  fold n_op. rewrite L3. cbn. rewrite !app_nil_r. reflexivity.
+Qed.
+
+Lemma parse_prefix_idents : forall pfx g, parse_prefix pfx = Some g -> forallb ident_ok (vars_of (segments pfx)) = true.
+Proof. intros pfx g H. unfold parse_prefix in H. destruct (forallb ident_ok (vars_of (segments pfx))); congruence. Qed.
+
+Lemma dart_matches_spec : forall sd delim sc op pfx g vals,
+  parse_prefix pfx = Some g -> List.length vals = List.length (vars_of g) ->
+  vars_safe Dart sd op (vars_of g) = true -> in_domain Dart delim sc op pfx = true ->
+  topic fixed Dart sd delim sc op pfx vals = Some (spec_topic delim sc op pfx vals).
+Proof.
+  intros sd delim sc op pfx g vals Hp Hlen Hvs Hdom.
+  pose proof (parse_prefix_idents _ _ Hp) as Hid.
+  pose proof (parse_prefix_segments _ _ Hp) as ->.
+  unfold vars_safe in Hvs. repeat rewrite andb_true_iff in Hvs. destruct Hvs as [[Hpar Hvs0] [[Hvs1 Hvs2] Hvs3]].
+  unfold in_domain in Hdom. cbv zeta in Hdom. repeat rewrite andb_true_iff in Hdom.
+  destruct Hdom as [[Nsc Nop] [[[[[Lp Ld] Dp] Dd] Nx] Fol]].
+  apply negb_mem_false in Hvs0, Hvs1, Hvs2, Hvs3.
+  pose proof (name_ok_word _ Nsc) as Wsc. pose proof (name_ok_word _ Nop) as Wop.
+  pose proof (title_word _ Wsc) as Wt.
+  set (vars := vars_of (segments pfx)) in *.
+  assert (Hnd : nodupb vars = true). { unfold params_ok in Hpar. apply nodupb_app in Hpar. tauto. }
+  set (en0 := combine vars vals ++ [(n_delimiter, delim)]).
+  assert (Hlk : lookups vars en0 = Some vals) by (apply lookups_combine; assumption).
+  assert (Hlk' : lookups vars ((n_op, op) :: en0) = Some vals) by (rewrite lookups_skip by exact Hvs0; exact Hlk).
+  destruct (dart_prefix_value delim pfx vals ((n_op, op) :: en0) Hid Lp Ld Dp Dd Nx Fol Hlk') as [praw [Eraw Rraw]].
+  assert (DLd : forallb dlit_ok delim = true).
+  { unfold lit_ok, no_char in *. rewrite forallb_forall in *. intros x Hx. unfold dlit_ok.
+    rewrite (Ld x Hx), (Dd x Hx). reflexivity. }
+  assert (DLop : forallb dlit_ok op = true).
+  { eapply forallb_impl; [|exact Wop]. intros c Hc. unfold dlit_ok.
+    rewrite (word_lit_char_ok 39 c) by auto. rewrite (word_not 36 c) by auto. reflexivity. }
+  assert (Rl : forall s en, forallb dlit_ok s = true -> dart_run s DN en = Some s).
+  { intros s en H. rewrite <- (app_nil_r s) at 1. rewrite dart_lit by exact H. cbn. rewrite app_nil_r. reflexivity. }
+  assert (He : emit fixed Dart sd delim sc op pfx =
+               Some {| p_consts := [(n_delimiter, ELit delim)];
+                       p_body := [(n_op, ELit op); (n_prefix, ELit praw);
+                                  (n_topic, ELit (lit "${prefix}" ++ title sc ++ lit "$delimiter$op"))] |}).
+  { unfold emit. cbv zeta. rewrite Eraw. reflexivity. }
+  rewrite (topic_unfold fixed Dart sd delim sc op pfx vals _ Hp Hlen Hpar He).
+  unfold run_prog. cbn [p_consts p_body run_consts eval]. rewrite (Rl delim [] DLd). fold vars. fold en0.
+  assert (Fx : mem n_op (fixed_params Dart sd op) = false /\ mem n_prefix (fixed_params Dart sd op) = false
+               /\ mem n_topic (fixed_params Dart sd op) = false) by (destruct sd; repeat split; reflexivity).
+  destruct Fx as [F1 [F2 F3]].
+  assert (M1 : mem n_op (fixed_params Dart sd op ++ vars) = false) by (rewrite mem_app, Hvs0, F1; reflexivity).
+  assert (M2 : mem n_prefix (n_op :: fixed_params Dart sd op ++ vars) = false).
+  { cbn [mem]. rewrite mem_app, Hvs1, F2. reflexivity. }
+  assert (M3 : mem n_topic (n_prefix :: n_op :: fixed_params Dart sd op ++ vars) = false).
+  { cbn [mem]. rewrite mem_app, Hvs2, F3. reflexivity. }
+  rewrite spec_topic_eq.
+  rewrite run_body_cons. cbn [eval]. rewrite (Rl op en0 DLop), M1. cbn [andb].
+  rewrite run_body_cons. cbn [eval]. rewrite Rraw, M2. cbn [andb].
+  rewrite run_body_cons. cbn [eval].
+  rewrite (dart_topic_lit (title sc) (prefix_value delim pfx vals) delim op); [|exact Wt|reflexivity| |reflexivity].
+  - rewrite M3. cbn [andb run_body]. reflexivity.
+  - change (lookup n_delimiter en0 = Some delim). unfold en0.
+    rewrite lookup_notin_combine by exact Hvs3. reflexivity.
+Qed.
+
+(** ** the property *)
+Theorem matches_spec : forall l sd delim sc op pfx g vals,
+  parse_prefix pfx = Some g -> List.length vals = List.length (vars_of g) ->
+  vars_safe l sd op (vars_of g) = true -> in_domain l delim sc op pfx = true ->
+  topic fixed l sd delim sc op pfx vals = Some (spec_topic delim sc op pfx vals).
+Proof.
+  intros [] sd; [apply go_matches_spec|apply java_matches_spec|apply dart_matches_spec|apply py_matches_spec].
+Qed.
+
+Theorem pub_eq_sub : forall l delim sc op pfx g vals,
+  parse_prefix pfx = Some g -> List.length vals = List.length (vars_of g) ->
+  vars_safe l Pub op (vars_of g) = true -> vars_safe l Sub op (vars_of g) = true ->
+  in_domain l delim sc op pfx = true ->
+  exists t, topic fixed l Pub delim sc op pfx vals = Some t /\ topic fixed l Sub delim sc op pfx vals = Some t.
+Proof.
+  intros l delim sc op pfx g vals Hp Hl Hv1 Hv2 Hd. exists (spec_topic delim sc op pfx vals).
+  split; eapply matches_spec; eassumption.
+Qed.
+
+Theorem all_languages_equal : forall l1 sd1 l2 sd2 delim sc op pfx g vals,
+  parse_prefix pfx = Some g -> List.length vals = List.length (vars_of g) ->
+  vars_safe l1 sd1 op (vars_of g) = true -> in_domain l1 delim sc op pfx = true ->
+  vars_safe l2 sd2 op (vars_of g) = true -> in_domain l2 delim sc op pfx = true ->
+  exists t, topic fixed l1 sd1 delim sc op pfx vals = Some t /\ topic fixed l2 sd2 delim sc op pfx vals = Some t.
+Proof.
+  intros l1 sd1 l2 sd2 delim sc op pfx g vals Hp Hl Hv1 Hd1 Hv2 Hd2. exists (spec_topic delim sc op pfx vals).
+  split; eapply matches_spec; eassumption.
+Qed.
+
+(** publisher and subscriber are generated from the same statements, for EVERY input *)
+Theorem emitted_pub_sub_same : forall q l delim sc op pfx,
+  match emit q l Pub delim sc op pfx, emit q l Sub delim sc op pfx with
+  | Some a, Some b => p_consts a = p_consts b /\
+                      forall s, In s (p_body a) <-> In s (p_body b)
+  | None, None => True
+  | _, _ => False
+  end.
+Proof.
+  intros q [] delim sc op pfx; cbn [emit]; cbv zeta.
+  - split; [reflexivity|]. intros x. cbn [p_body In]. tauto.
+  - split; [reflexivity|]. intros x. tauto.
+  - destruct (dart_prefix_raw delim pfx (segments pfx)); [|exact I]. split; [reflexivity|]. intros x. tauto.
+  - split; [reflexivity|]. intros x. tauto.
+Qed.
+
+(** substituting every variable by its own text gives the prefix back: the specification
+    replaces the variables and nothing else *)
+Lemma subst_self : forall g, subst_pos g (map (fun n => 123 :: n ++ [125]) (vars_of g)) = render g.
+Proof.
+  induction g as [|[c|n] g IH]; cbn [subst_pos vars_of map render]; [reflexivity| |].
+  - rewrite IH. reflexivity.
+  - rewrite IH. cbn [app]. rewrite <- app_assoc. reflexivity.
+Qed.
+
+Theorem subst_identity : forall pfx,
+  subst_pos (segments pfx) (map (fun n => 123 :: n ++ [125]) (vars_of (segments pfx))) = pfx.
+Proof. intros pfx. rewrite subst_self. apply render_segments. Qed.
+
+(** ** the two defects of the pinned generators, on the README's own example *)
+Lemma pinned_go_ignores_delim :
+  exists delim sc op pfx vals t1 t2,
+    in_domain Go delim sc op pfx = true /\ in_domain Java delim sc op pfx = true /\
+    topic pinned Go Pub delim sc op pfx vals = Some t1 /\
+    topic pinned Java Sub delim sc op pfx vals = Some t2 /\ t1 <> t2.
+Proof.
+  exists (lit "/"), (lit "Events"), (lit "EventCreated"), (lit "foo.{user}"), [lit "bill"].
+  eexists. eexists. repeat split; try (vm_compute; reflexivity). vm_compute. discriminate.
+Qed.
+
+Lemma pinned_python_case_differs :
+  exists delim sc op pfx vals t1 t2,
+    in_domain Py delim sc op pfx = true /\ in_domain Java delim sc op pfx = true /\
+    topic pinned Py Pub delim sc op pfx vals = Some t1 /\
+    topic pinned Java Sub delim sc op pfx vals = Some t2 /\ t1 <> t2.
+Proof.
+  exists (lit "."), (lit "events"), (lit "created"), [], [].
+  eexists. eexists. repeat split; try (vm_compute; reflexivity). vm_compute. discriminate.
+Qed.
+
+(** ** the side conditions are needed: what each template does with its metacharacters *)
+Lemma metachar_witnesses :
+  (* Go / Java: '%' in a prefix with variables is a format verb *)
+  topic fixed Go Pub (lit ".") (lit "Events") (lit "created") (lit "100%%.{user}") [lit "bob"]
+    = Some (lit "100%.bob.Events.created")
+  /\ spec_topic (lit ".") (lit "Events") (lit "created") (lit "100%%.{user}") [lit "bob"]
+    = lit "100%%.bob.Events.created"
+  /\ topic fixed Java Sub (lit ".") (lit "Events") (lit "created") (lit "100%%.{user}") [lit "bob"]
+    = Some (lit "100%.bob.Events.created")
+  (* ... and with a single '%' the call leaves the modelled fragment (Go prints %!.(string=bob)) *)
+  /\ topic fixed Go Pub (lit ".") (lit "Events") (lit "created") (lit "100%.{user}") [lit "bob"] = None
+  (* Dart: '$' in a prefix interpolates *)
+  /\ topic fixed Dart Pub (lit ".") (lit "Events") (lit "created") (lit "a$user.{user}") [lit "bob"]
+    = Some (lit "abob.bob.Events.created")
+  (* Dart: a delimiter that continues the identifier after a trailing variable ($user_) *)
+  /\ topic fixed Dart Pub (lit "_") (lit "Events") (lit "created") (lit "foo.{user}") [lit "bob"] = None
+  /\ topic fixed Go Pub (lit "_") (lit "Events") (lit "created") (lit "foo.{user}") [lit "bob"]
+    = Some (lit "foo.bob_Events_created")
+  (* Python: a brace token that is not a variable, next to a variable, breaks str.format *)
+  /\ topic fixed Py Pub (lit ".") (lit "Events") (lit "created") (lit "{a-b}.{user}") [lit "bob"] = None
+  /\ topic fixed Java Pub (lit ".") (lit "Events") (lit "created") (lit "{a-b}.{user}") [lit "bob"]
+    = Some (lit "{a-b}.bob.Events.created")
+  (* Python: a prefix variable called op is silently replaced by the operation name;
+     in Go the same scope does not compile *)
+  /\ topic fixed Py Pub (lit ".") (lit "Events") (lit "created") (lit "{op}") [lit "bob"]
+    = Some (lit "created.Events.created")
+  /\ topic fixed Go Pub (lit ".") (lit "Events") (lit "created") (lit "{op}") [lit "bob"] = None.
+Proof. repeat split; vm_compute; reflexivity. Qed.
